@@ -16,7 +16,7 @@ import (
 type Mutant struct {
 	Name     string   `json:"name"`
 	Property string   `json:"property"`
-	File     string   `json:"file"` // relative to the repo
+	File     string   `json:"file"` // relative to the repo; "verif:<path>" = a stub/spec file of /verif (engine canary)
 	Old      string   `json:"old"`
 	New      string   `json:"new"`
 	Nth      int      `json:"nth"`    // which occurrence (1-based, default 1)
@@ -44,6 +44,9 @@ func loadMutants(verif string) ([]Mutant, error) {
 
 func applyMutant(repo string, m Mutant) (map[string][]byte, error) {
 	path := filepath.Join(repo, m.File)
+	if rest, ok := strings.CutPrefix(m.File, "verif:"); ok {
+		path = filepath.Join(selftestVerif, rest)
+	}
 	data, err := os.ReadFile(path)
 	if err != nil {
 		return nil, err
@@ -66,6 +69,8 @@ func applyMutant(repo string, m Mutant) (map[string][]byte, error) {
 	s = s[:idx] + m.New + s[idx+len(m.Old):]
 	return map[string][]byte{path: []byte(s)}, nil
 }
+
+var selftestVerif = "/verif"
 
 func cmdSelftest(args []string) int {
 	fs := flag.NewFlagSet("selftest", flag.ExitOnError)
@@ -90,11 +95,16 @@ func cmdSelftest(args []string) int {
 			continue
 		}
 		n++
+		selftestVerif = *verif
 		ov, err := applyMutant(*repo, m)
 		if err != nil {
 			fmt.Printf("SELFTEST-ERROR %s: %v\n", m.Name, err)
 			bad++
 			continue
+		}
+		specOverlay = nil
+		if strings.HasPrefix(m.File, "verif:") {
+			specOverlay, ov = ov, nil
 		}
 		o := &options{prop: m.Property, tier: "quick", repo: *repo, verif: *verif, noEvid: true}
 		o.timeout = 10e9
